@@ -132,9 +132,18 @@ func execStack[E any](c stackCase, cd lib.Codec[E]) core.Result {
 			st = class.MakeWithCapacity(c.Cap)
 			capacity = c.Cap
 		case "array":
-			st = class.MakeFromArray(encAll(cd, c.Init))
+			// the Go array stays the caller's: it is overwritten right after the call (a scratch buffer reused)
+			arg := encAll(cd, c.Init)
+			st = class.MakeFromArray(arg)
+			for i := range arg {
+				arg[i] = cd.Enc(-5)
+			}
 		case "seq":
-			st = class.MakeFromSequence(col.List[E](lib.Notation()).MakeFromArray(encAll(cd, c.Init)))
+			arg := col.List[E](lib.Notation()).MakeFromArray(encAll(cd, c.Init))
+			st = class.MakeFromSequence(arg)
+			for i := 1; i <= arg.GetSize(); i++ {
+				arg.SetValue(i, cd.Enc(-5))
+			}
 		case "seq-stack":
 			source = class.MakeFromArray(encAll(cd, c.Init))
 			st = class.MakeFromSequence(source)
@@ -321,6 +330,7 @@ type stackCtorCase struct {
 func TestC13(t *testing.T) {
 	r := core.Begin(t, "C13")
 	defer r.End()
+	core.DFS(r, core.Check[largeCase]{Name: "large-sizes", Gen: genLarge([]string{"Stack"}), Exec: execLarge("C13"), NoJournal: true}, 0)
 	core.Rapid(r, core.Check[stackCase]{Name: "history", Gen: genStackCase, Exec: execStackCase}, r.N(3000, 30000))
 	core.DFS(r, core.Check[stackWord]{Name: "words", Gen: genStackWord(r.N(9, 12)), Exec: execStackWord, NoJournal: true}, 0)
 	core.DFS(r, core.Check[stackCtorCase]{Name: "ctor-sizes",
